@@ -369,6 +369,8 @@ func opcodeToString(op vm.Opcode) string {
 		vm.OpWsGetClients:    "WS_GET_CLIENTS",
 		vm.OpWsGetConnCount:  "WS_GET_CONN_COUNT",
 		vm.OpWsGetUptime:     "WS_GET_UPTIME",
+		vm.OpAsync:           "ASYNC",
+		vm.OpAwait:           "AWAIT",
 		vm.OpHalt:            "HALT",
 	}
 
@@ -391,6 +393,7 @@ func hasOperand(op vm.Opcode) bool {
 		vm.OpCall:        true,
 		vm.OpBuildObject: true,
 		vm.OpBuildArray:  true,
+		vm.OpAsync:       true, // body length; the body's instructions follow inline
 	}
 	return withOperand[op]
 }
